@@ -202,6 +202,7 @@ func (m c06) payload(c *Ctx, p *c06payload) {
 		if res != nil {
 			c.Violate("error-with-value/UnmarshalResource", "both a resource and error %v for %s", err, desc())
 		}
+		m.partial(c, p, schema, data) // what the full path refuses must not come back wrong through the partial path
 		return
 	}
 	c.Count("payload_accepted")
@@ -399,6 +400,79 @@ func (m c06) payload(c *Ctx, p *c06payload) {
 	if len(p.Attrs)+len(p.Rels) > 0 {
 		c.Nontrivial(string(data) + jsonStr(t))
 	}
+	m.partial(c, p, schema, data)
+}
+
+// partial judges the same payload through UnmarshalPartialResource: whatever it accepts must hold the
+// values the JSON denotes, exactly like the full path.
+func (m c06) partial(c *Ctx, p *c06payload, schema *jsonapi.Schema, data []byte) {
+	t := &p.Type
+	var res *jsonapi.SoftResource
+	var err error
+	if pi := Guard(func() { res, err = jsonapi.UnmarshalPartialResource(data, schema) }); pi != nil || err != nil || res == nil {
+		c.Count("partial_rejected")
+		return
+	}
+	c.Count("partial_accepted")
+	desc := func() string { return clip(string(data), 1200) + " against type " + clip(jsonStr(t), 500) }
+	for name, text := range p.Attrs {
+		a := t.Attr(name)
+		if a == nil {
+			continue
+		}
+		var got any
+		if pi := Guard(func() { got = res.Get(name) }); pi != nil {
+			return
+		}
+		if got == nil && a.Null {
+			got = Val{K: a.Kind, Null: true, Nil: true}.Go()
+		}
+		cl, msg := judgeLiteral(a.Kind, a.Null, text, true, got)
+		if cl != "" && cl != "lenient" {
+			c.Violate(cl+"/UnmarshalPartialResource", "attribute %q (%s) = %s: %s; %s", name, kindName(a.Kind, a.Null), clip(text, 80), msg, desc())
+			return
+		}
+	}
+	for _, rl := range t.Rels {
+		text := p.Rels[rl.Name]
+		if text == "" {
+			continue
+		}
+		ids, isNull, isList, ok := readLinkage(text)
+		switch {
+		case !ok:
+			c.Violate("malformed-linkage-accepted/UnmarshalPartialResource", "relationship %q data %s accepted; %s", rl.Name, clip(text, 120), desc())
+			return
+		case isNull && !rl.ToOne:
+			c.Violate("null-for-to-many-accepted/UnmarshalPartialResource", "relationship %q; %s", rl.Name, desc())
+			return
+		case !isNull && isList != !rl.ToOne:
+			c.Violate("linkage-cardinality-accepted/UnmarshalPartialResource", "relationship %q (toOne=%v) accepted data %s; %s", rl.Name, rl.ToOne, clip(text, 120), desc())
+			return
+		}
+		var want []string
+		for _, x := range ids {
+			want = append(want, x[1])
+			if x[0] != rl.ToType {
+				c.Violate("wrong-linkage-type-accepted/UnmarshalPartialResource", "relationship %q targets %q, identifier of type %q accepted; %s", rl.Name, rl.ToType, x[0], desc())
+				return
+			}
+		}
+		got := res.Get(rl.Name)
+		if rl.ToOne {
+			w := ""
+			if len(want) > 0 {
+				w = want[0]
+			}
+			if g, ok := got.(string); !ok || g != w {
+				c.Violate("to-one-changed/UnmarshalPartialResource", "relationship %q holds %v, payload lists %q; %s", rl.Name, got, w, desc())
+				return
+			}
+		} else if g, ok := got.([]string); !ok || (!sameSeq(g, want) && !(len(g) == 0 && len(want) == 0)) {
+			c.Violate("to-many-changed/UnmarshalPartialResource", "relationship %q holds %v, payload lists %v; %s", rl.Name, got, want, desc())
+			return
+		}
+	}
 }
 
 // ---- literal generators
@@ -523,7 +597,9 @@ func (m c06) Case(c *Ctx, r *RNG) {
 			if r.Chance(1, 8) {
 				typ = "wrong-type"
 			}
-			switch r.Intn(7) {
+			switch r.Intn(8) {
+			case 7: // linkage of the wrong JSON shape for the cardinality, or malformed
+				p.Rels[rl.Name] = r.Pick([]string{ident(typ), "[" + ident(typ) + "]", "5", `"x"`, `{}`, `[{"id":"a","type":"` + rl.ToType + `"},5]`, `[[]]`, "true"})
 			case 0:
 				p.Rels[rl.Name] = "" // relationship object without data
 			case 1:
